@@ -458,3 +458,87 @@ def self_move(progs):
                                    'the same element: a move assignment onto itself' % ', '.join(x[1] if x[0] == 'm' else 'parameter %s' % x[1] for x in sorted(common, key=str)),
                                    where=f['pname'], unit=prog.uname))
     return rr
+
+
+# ------------------------------------------------------------------------------ VALUE-INIT
+def value_init(progs):
+    """std::vector has no operation that default-initialises elements: resize(n), vector(n) and the non-standard append(n) value-initialise
+    (trivial types become zero).  Who-may-call: no member of the vector classes calls uninitialized_default_construct(_n); the growing
+    members without a value argument call uninitialized_value_construct(_n)."""
+    rr = RuleResult('VALUE-INIT', 'elements created without a value argument (resize(n), append(n), vector(n)) are value-initialised: the vector classes '
+                                  'never call uninitialized_default_construct(_n), and those members call uninitialized_value_construct(_n)')
+    for prog in progs:
+        for f in prog.amc_functions():
+            body = f.get('body')
+            if body is None or f.get('clsq') not in ('amc::vec::VectorImpl', 'amc::vec::StaticVector', 'amc::vec::DynamicVector', 'amc::Vector'):
+                continue
+            for c in A.calls(body):
+                sn = A.cshort(c)
+                if sn in ('uninitialized_default_construct', 'uninitialized_default_construct_n'):
+                    rr.add(Finding('VALUE-INIT', '%s|%s' % (f['key'], sn), prog.site(f, c),
+                                   '%s default-initialises the new elements: for trivially constructible element types they keep whatever bytes the storage '
+                                   'held, where std::vector value-initialises (zero)' % sn, where=f['pname'], unit=prog.uname))
+                if sn in ('uninitialized_value_construct', 'uninitialized_value_construct_n'):
+                    rr.instance('%s|%s' % (f['key'], rel(prog.site(f, c))), {'function': f['pname'][:140], 'value_initialises_with': sn})
+    return rr
+
+
+# ------------------------------------------------------------------------------ LIVE-COUNT
+LIVE_COUNT_ARG = {'move_n': 3, 'assign_n': 3, 'fill': 1}      # amc::vec helpers: index of "number of already constructed destination slots"
+SIZE_CHANGERS = {'setSize', 'incrSize', 'decrSize', 'destroyFreeStorage', 'freeStorage', 'resetToSmall', 'clear', 'shrink', 'grow', 'pop_back', 'erase',
+                 'move_construct', 'setDynSizeAndCapacity'}
+
+
+def live_count(progs):
+    """move_n / assign_n / fill take the number of *already constructed* slots of the destination: they assign onto those and construct
+    the rest.  That number must be the destination's size at the moment of the call - a size read before the container was emptied or
+    resized makes them assign onto raw memory (or construct over live objects)."""
+    rr = RuleResult('LIVE-COUNT', 'the "already constructed" count handed to move_n / assign_n / fill is the size of the destination at the call: size() '
+                                  'itself, the size word, or a local read from it with no size-changing call of this container in between on a common path')
+    for prog in progs:
+        for f in prog.amc_functions():
+            body = f.get('body')
+            if body is None or not f['name'].startswith('amc::vec::') and not f['name'].startswith('amc::Vector'):
+                continue
+            sites = [c for c in A.calls(body) if A.callee(c).startswith('amc::vec::') and A.cshort(c) in LIVE_COUNT_ARG and len(c.get('args', [])) > LIVE_COUNT_ARG[A.cshort(c)]]
+            if not sites:
+                continue
+            linit = A.local_inits(body)
+            order = A.eval_order(body, f.get('inits'))
+            P = A.Parents(body)
+
+            def is_size_read(x):
+                x = A.strip(x)
+                return isinstance(x, dict) and ((x.get('k') == 'call' and A.cshort(x) == 'size' and x.get('method') and not x.get('args')) or
+                                                (x.get('k') == 'mem' and x.get('field') and x.get('name') in ('_size',)))
+            for c in sites:
+                a = A.strip(c['args'][LIVE_COUNT_ARG[A.cshort(c)]])
+                why = None
+                if is_size_read(a):
+                    ok = True
+                elif a.get('k') == 'ref' and a.get('dk') == 'local' and linit.get(a.get('did')) and linit[a['did']][0] is not None and is_size_read(linit[a['did']][0]):
+                    ini = A.strip(linit[a['did']][0])
+                    p0 = A.first_eval(ini, order)
+                    stale = [m for m in A.calls(body) if A.cshort(m) in SIZE_CHANGERS and m.get('method') and id(m) in order and p0 < order[id(m)] < order[id(c)]
+                             and (m.get('obj') is None or A.root(m.get('obj'), linit)[0] == 'this') and _same(P, m, c)]
+                    ok = not stale
+                    if stale:
+                        why = 'the size was read into `%s` before %s ran' % (a.get('name'), A.cshort(stale[0]))
+                elif a.get('k') == 'ref' and a.get('dk') == 'param':
+                    ok = True        # the caller's contract (checked at its own call site)
+                else:
+                    ok, why = False, 'the count is neither size() nor a local read from it'
+                rr.instance('%s|%s|%s' % (f['key'], A.cshort(c), rel(prog.site(f, c))), {'function': f['pname'][:140], 'helper': A.cshort(c), 'count_is_current_size': ok})
+                if not ok:
+                    rr.add(Finding('LIVE-COUNT', '%s|%s' % (f['key'], A.cshort(c)), prog.site(f, c),
+                                   '%s is told that the destination holds a number of constructed elements that is not its size at this point (%s): it assigns onto raw '
+                                   'slots or constructs over live elements' % (A.cshort(c), why), where=f['pname'], unit=prog.uname))
+    return rr
+
+
+def _same(P, a, b):
+    ga = {id(c): t for c, t in P._guards(a)}
+    for c, t in P._guards(b):
+        if id(c) in ga and ga[id(c)] != t:
+            return False
+    return True
